@@ -117,7 +117,7 @@ def parse_job(case):
         t = np.array(dyn.times)
         if len(t) != want["n"] + 1 or abs((t[1] - t[0]) - dtv[want["dt"]]) > 1e-12:
             return [{"what": "effective-parameters", "expected": [want["n"], dtv[want["dt"]]],
-                     "observed": [len(t) - 1, float(t[1] - t[0])]}]
+                     "observed": [len(t) - 1, float(t[1] - t[0]) if len(t) > 1 else None]}]
     return []
 
 
